@@ -91,6 +91,9 @@ def cases(rng, tier):
                 w = rng.randint(1, 4); r = rng.randint(0, 3)
                 mats.append({"w": w, "rows": [[rng.randint(1, 99) for _ in range(w)] for _ in range(r)]})
             p["mats"] = mats
+            if rng.random() < 0.5:
+                # operands of different element types (numpy promotes): a narrow first operand, later ones it cannot represent
+                p["vdts"] = [rng.choice(["int8", "int64", "float64", "uint8", "int32"]) for _ in mats]
         else:
             p["cols"] = _gen_cols(rng, nf, n)
             if f == "getitem":
@@ -150,11 +153,22 @@ def _table(obj, names):
     return {"k": "obs", "entries": canon(_entries(obj, names)), "len": canon(len(obj)), "names": canon(names)}
 
 
+def _vmat(m, dt):
+    """the matrix of a VarLenArray operand in element type dt; 64-bit and float operands hold values a narrow type cannot"""
+    a = np.array(m["rows"], dtype=np.int64).reshape(len(m["rows"]), m["w"])
+    off = {"int64": 1000, "float64": 0.5, "int32": 300}.get(dt, 0)
+    return (a + off).astype(dt)
+
+
 def run_impl(p):
     from npstructures import VarLenArray
     f = p["f"]
     def g():
         if f == "varlen":
+            if "vdts" in p:
+                objs = [VarLenArray(_vmat(m, dt)) for m, dt in zip(p["mats"], p["vdts"])]
+                res = np.concatenate(objs).array
+                return [str(res.dtype), [[float(x) for x in r] for r in res.tolist()]]
             objs = [VarLenArray(np.array(m["rows"], dtype=np.int64).reshape(len(m["rows"]), m["w"])) for m in p["mats"]]
             return np.concatenate(objs).array.tolist()
         if f == "concat" and "dts" in p:
@@ -242,6 +256,14 @@ def _raw_entries(cols):
 
 def oracle(p):
     f = p["f"]
+    if f == "varlen" and "vdts" in p:
+        w = max((m["w"] for m in p["mats"]), default=0)
+        rdt = np.result_type(*[np.dtype(d) for d in p["vdts"]])
+        rows = []
+        for m, dt in zip(p["mats"], p["vdts"]):
+            for r in _vmat(m, dt).astype(rdt).tolist():
+                rows.append([0.0] * (w - m["w"]) + [float(x) for x in r])
+        return canon([str(rdt), rows])
     if f == "varlen":
         w = max((m["w"] for m in p["mats"]), default=0)
         rows = []
@@ -299,6 +321,8 @@ def lean_request(p):
     f = p["f"]
     def cols(cs):
         return [{"n": c["n"], "v": c["v"]} for c in cs]
+    if f == "varlen" and "vdts" in p:
+        return None
     if f == "varlen":
         return {"op": "DC.run", "f": "varlen", "mats": p["mats"]}
     if f == "concat" and "dts" in p:
